@@ -10,9 +10,12 @@ package httpserver
 //                        allowed by every filter of the server), c01 (what the routing rules say),
 //                        amb (denied only by the filter of a host-matching rule passed over on the
 //                        way to the route: C05 (iii), cached mux against the cache-less one) (MBT)
-//   TestVerifC05Trace  - seeded random configurations with real IPv4/IPv6 filters, clients taken
-//                        from RemoteAddr / X-Forwarded-For / X-Real-IP, request sequences over a
-//                        small key space; observations of the four muxes recorded for TLC (TV)
+//   TestVerifC05Trace  - seeded random configurations with real IPv4/IPv6 filters (incl. adjacent
+//                        nets of one size in one list), clients taken from RemoteAddr /
+//                        X-Forwarded-For / X-Real-IP, alone or as the only public address of a
+//                        chain of private / loopback / link-local proxy hops (HttpRouter.tla:
+//                        req.via), request sequences over a small key space; observations of the
+//                        four muxes recorded for TLC (TV)
 
 import (
 	"testing"
